@@ -209,7 +209,7 @@ func elementToBox(element *utils.HTMLNode, styleFor styleForI,
 	if style.GetFloat() == "footnote" {
 		if style.GetFootnoteDisplay() == "block" {
 			style.SetDisplay(pr.Display{"block", "flow"})
-		} else {
+		} else if state != nil { // state == nil: root element, it has no parent to hold a footnote call and its box must stay block-level
 			style.SetDisplay(pr.Display{"inline", "flow"})
 		}
 	}
